@@ -28,6 +28,7 @@ type Printer struct {
 	// mis-orders it; left off by the generators).
 	AllowDistinctOrdinal bool
 	AllowHavingOverJoin bool
+	AllowMixedJoinChains bool
 	// Feats records spelling features of the last statement that known-finding regions depend on.
 	Feats map[string]bool
 
@@ -51,6 +52,7 @@ type block struct {
 	raw      string // set operation: complete text up to (excluding) ORDER BY / LIMIT
 	from     string
 	isJoin   bool
+	hasOuter bool // the FROM clause contains a LEFT/RIGHT join
 	cols     []string // SQL text of each column of the row at the current stage
 	where    string
 	groupBy  []string
@@ -210,13 +212,17 @@ func (p *Printer) build(q *Query, outer [][]string) *block {
 	case "join":
 		l := p.build(q.L, outer)
 		r := p.build(q.R, outer)
-		if p.noFuse(q) || l.raw != "" || l.stage != stFrom {
+		// (chains mixing outer and inner joins are not merged into one FROM clause: the engine's join
+		// planner loses NULL-rejecting conditions on 3-way LEFT/INNER chains — observed defect, C01's
+		// subject; each outer join of a chain becomes a derived table)
+		outer := q.Kind != "inner"
+		if p.noFuse(q) || l.raw != "" || l.stage != stFrom || (l.isJoin && (l.hasOuter || outer) && !p.AllowMixedJoinChains) {
 			l = p.derive(l)
 		}
 		if p.noFuse(q) || r.raw != "" || r.stage != stFrom || r.isJoin {
 			r = p.derive(r)
 		}
-		b := &block{stage: stFrom, isJoin: true}
+		b := &block{stage: stFrom, isJoin: true, hasOuter: outer || l.hasOuter}
 		b.cols = append(append([]string{}, l.cols...), r.cols...)
 		kind := map[string]string{"inner": "INNER JOIN", "left": "LEFT JOIN", "right": "RIGHT JOIN"}[q.Kind]
 		if q.Cross && q.Kind == "inner" && q.P.Op == "lit" && !q.P.V.Null && !q.P.V.IsStr && q.P.V.I == 1 {
